@@ -22,6 +22,9 @@ type c20Comp struct {
 	Iter   int  `json:"iter"`   // behaviour kind in the iteration function
 	Period int  `json:"period"` // the iteration behaviour applies when id % period == 0 (1 = always)
 	Timed  bool `json:"timed"`  // the iteration behaviour happens inside a t.Time(...) block
+	// Nil: the component's setup hands back a nil iteration function (a forgotten return value): invoking it panics, which
+	// stops the iteration there and fails it, every time
+	Nil bool `json:"nil,omitempty"`
 }
 
 type c20Params struct {
@@ -96,6 +99,10 @@ func init() {
 					}
 					p.Comps = append(p.Comps, cp)
 				}
+				if i%9 == 4 && !setupFault && nc >= 2 {
+					// (never the first component: its call is what shows that an iteration took place at all)
+					p.Comps[1+r.IntN(nc-1)].Nil = true
+				}
 				if i%4 == 1 && nc >= 2 {
 					p.Nest = 1 + r.Uint64()>>1
 				}
@@ -141,6 +148,9 @@ func c20Run(c *core.Case, o *core.Outcome) {
 			cur.l.Add("setup", engine.HandleID(t), "", int64(i), "")
 			if cp.Setup != engine.BPass {
 				engine.Behave(t, cp.Setup)
+			}
+			if cp.Nil {
+				return nil
 			}
 			return func(t *f1testing.T) {
 				if p.Mode == "filespan" && i == 0 {
@@ -301,6 +311,11 @@ func c20Once(c *core.Case, o *core.Outcome, p *c20Params, spec engine.Spec, l *e
 		expectRan := 0
 		failed := false
 		for _, cp := range p.Comps {
+			if cp.Nil {
+				// calling the nil function panics: the iteration stops here and has failed
+				failed = true
+				break
+			}
 			expectRan++
 			if cp.Iter != engine.BPass && n%uint64(cp.Period) == 0 {
 				failed = true
